@@ -22,6 +22,6 @@ vd=$(mktemp -d /tmp/mutv.XXXXXX)
 cp /verif/known_findings.json "$vd/" 2>/dev/null
 rc=0
 for p in $props; do
-  /verif/bin/argverif -repo "$scratch" -verif "$vd" -property "$p" | grep -E 'VIOLATION|rule=|expected:|found:|KNOWN|cannot' 
+  ${ARGVERIF:-/verif/bin/argverif} -repo "$scratch" -verif "$vd" -property "$p" | grep -E 'VIOLATION|rule=|expected:|found:|KNOWN|cannot' 
 done
 rm -rf "$vd"
